@@ -392,7 +392,8 @@ def sign_match_cases(rng, res, n, base=None):
             variant = draw(rng, ["sign_verify_ok", "verify_wrong_key", "verify_unsigned", "verify_with_append", "both_key_kinds",
                                   "missing_file", "sign_bad_key", "link_two_keys", "match_equal", "match_changed", "match_missing_link", "match_other_algorithm", "match_no_digest", "match_extra_file",
                                   "match_empty_name_changed", "match_empty_name_equal", "match_colon_path_changed", "match_colon_path_equal",
-                                  "match_exclude_replaces_defaults", "match_exclude_replaces_defaults_equal",
+                                  "match_exclude_replaces_defaults", "match_exclude_replaces_defaults_equal", "verify_modified_after_signing",
+                                  "verify_modified_after_signing",
                                   "link_append", "link_one_key", "verify_gpg_no_id", "verify_with_output", "no_key_arg",
                                   "verify_with_empty_output", "verify_many", "verify_many", "verify_many", "link_verify_gpg_no_id",
                                   "verify_both_key_kinds", "verify_both_key_kinds"], base, j)
@@ -417,6 +418,24 @@ def sign_match_cases(rng, res, n, base=None):
                 _av = ["-f", "l.layout", "-k", priv_path(k), "-g"]
                 st, _o, _e = cli.run_main("in_toto_sign", _av)
                 record(res, "sign", {"variant": variant}, st, "usage", argv=_av, file_kind="layout")
+            elif variant == "verify_modified_after_signing":
+                # signed, then the content changed (the signature is still there, under the signer's key id, and does
+                # not fit any more): checking with the signer's own key is a failed signature check - status 1
+                import base64 as _b64
+                _av = ["-f", "l.layout", "-k", priv_path(k)]
+                st, _o, _e = cli.run_main("in_toto_sign", _av)
+                record(res, "sign", {"variant": variant, "dsse": dsse, "key": k.kind}, st, "success", argv=_av, file_kind="layout")
+                c_ = json.load(open("l.layout"))
+                if "signed" in c_:
+                    c_["signed"]["readme"] = "changed after signing"
+                else:
+                    body_ = json.loads(_b64.b64decode(c_["payload"]))
+                    body_["readme"] = "changed after signing"
+                    c_["payload"] = _b64.b64encode(json.dumps(body_, sort_keys=True).encode()).decode()
+                json.dump(c_, open("l.layout", "w"))
+                _av = ["-f", "l.layout", "-k", write_pub_pem(k, d), "--verify"]
+                st, _o, _e = cli.run_main("in_toto_sign", _av)
+                record(res, "sign_verify", {"variant": variant, "dsse": dsse, "key": k.kind}, st, "sig", argv=_av, file_kind="layout")
             elif variant == "verify_both_key_kinds":
                 # --verify with a key file that did sign and a gpg key that did not (either order): whatever the tool makes
                 # of the two options together, a key was given that has no valid signature - not a success; the front end
